@@ -354,6 +354,11 @@ def compare_loaded(ctx, old, muts, text, rep, spec=None, with_sql=False):
         return ['simulate'], 'the loaded mutations are rejected by the simulation: %s: %s' % (type(e).__name__, str(e)[:80])
     if sig_text(s1) != sig_text(s2):
         return ['signature'], 'the loaded mutations lead to a different signature than the hinted ones'
+    for a, b in zip(muts, loaded):
+        # what the constructor was given and the signature does not show: the initial value
+        ia, ib = getattr(a, 'initial', None), getattr(b, 'initial', None)
+        if not callable(ia) and not callable(ib) and (type(ia) is not type(ib) or ia != ib):
+            return ['initial'], 'the loaded %s has initial=%r, the hinted one initial=%r' % (type(a).__name__, ib, ia)
     if h1 != h2:
         return ['text'], 'rendering the loaded mutations gives different text: %r vs %r' % (
             [a for a, b in zip(h1, h2) if a != b][0][:100], [b for a, b in zip(h1, h2) if a != b][0][:100])
@@ -391,7 +396,8 @@ def direct_mutations(rng):
              {'name': 'owner', 'type': 'ForeignKey', 'attrs': {'null': True}, 'related': 'vapp.Alpha'}]}]}]}
     old = sigs.sig_from_spec(spec)
     k = rng.choice(['check', 'check', 'index_cond', 'index_expr', 'unique', 'add_str', 'change_str', 'together', 'together',
-                    'rename_field', 'rename_field', 'rename_model', 'change_plain', 'add_plain', 'add_custom', 'add_custom'])
+                    'rename_field', 'rename_field', 'rename_model', 'change_plain', 'add_plain', 'add_custom', 'add_custom',
+                    'add_null_initial'])
     q = values.gen_q_ops(rng) if rng.random() < 0.7 else values.gen_q(rng)
     if k == 'check':
         mu = M.ChangeMeta('Alpha', 'constraints', [{'type': models.CheckConstraint, 'name': 'chk_%d' % rng.randint(1, 9),
@@ -446,6 +452,13 @@ def direct_mutations(rng):
             mu = M.AddField('Alpha', 'extra3', cls, null=True, **kw)
         else:
             mu = M.ChangeField('Alpha', 'name', field_type=cls, null=True, **kw)
+        v = None
+    elif k == 'add_null_initial':
+        # a nullable column that still gets a value for the rows that exist (any value, falsy ones included)
+        ft, init = rng.choice([(models.IntegerField, 7), (models.IntegerField, 0), (models.BooleanField, False),
+                               (models.CharField, 'n/a'), (models.CharField, '')])
+        kw = {'max_length': 20} if ft is models.CharField else {}
+        mu = M.AddField('Alpha', 'extra4', ft, initial=init, null=True, **kw)
         v = None
     elif k == 'add_plain':
         mu = M.AddField('Alpha', 'extra2', models.IntegerField, null=True, db_index=rng.choice([True, False]),
